@@ -75,7 +75,12 @@ func streamCli(o *Out, r *rand.Rand, n int, thorough bool) {
 		for j := 0; j < lines; j++ {
 			switch r.Intn(11) {
 			case 9:
-				// one very long line (an embedded blob)
+				// one very long line (an embedded blob); only in a script file: a single -e argument is limited to 128 KiB by the OS
+				if supply == "dashE" || strings.Contains(sb.String(), "blob") {
+					fmt.Fprintf(&sb, "printf(\"%%s-%%d\\n\", \"g\", %d)\n", j)
+					fmt.Fprintf(&want, "g-%d\n", j)
+					break
+				}
 				k := 66000 + r.Intn(3000)
 				fmt.Fprintf(&sb, "blob%d = \"%s\"\nprintln(len(blob%d))\n", j, strings.Repeat("ab", k/2), j)
 				fmt.Fprintf(&want, "%d\n", k/2*2)
